@@ -99,7 +99,7 @@ def cec_verify(self: Any, hash: Bytes, sig: Bytes, *, exp_pub: Bytes, exp_sig: B
     ensures(result == openssl_verifies(exp_pub, hash, sig))
 
 
-@contract('bitcoin.core.scripteval:_CheckSig', name='checksig_plumbing', prop=P)
+@contract('bitcoin.core.scripteval:_CheckSig', name='checksig_plumbing', prop=[P, 'C06', 'C07'])
 def checksig_plumbing(sig: Bytes, pubkey: Bytes, script: Bytes(cls=CScript), txTo: Any, inIdx: Int, err_raiser: Any) -> Bool:
     """an empty signature is false; otherwise the LAST byte of the signature is the hash type that is hashed with the
     given subscript and input index, and the remaining bytes are what OpenSSL verifies against the given public key"""
